@@ -24,7 +24,9 @@ def roundDiv (m : RoundMode) (a b : Int) : Int :=
 `q` is `a / b` rounded in mode `m` -/
 def IsRounded (m : RoundMode) (a b q : Int) : Prop :=
   match m with
-  | .truncate => (q * b).natAbs ≤ a.natAbs ∧ a.natAbs < (q * b).natAbs + b.natAbs ∧ (q = 0 ∨ sgn q = sgn a * sgn b)
+  | .truncate =>
+    -- `q * b` lies between `0` and `a`, less than `|b|` away from `a`
+    (a - q * b).natAbs < b.natAbs ∧ (0 ≤ a → 0 ≤ q * b ∧ q * b ≤ a) ∧ (a ≤ 0 → a ≤ q * b ∧ q * b ≤ 0)
   | .floor => if 0 < b then q * b ≤ a ∧ a < (q + 1) * b else (q + 1) * b < a ∧ a ≤ q * b
   | .nearestUp => if 0 < b then 2 * q * b ≤ 2 * a + b ∧ 2 * a + b < 2 * (q + 1) * b
                   else 2 * (q + 1) * b < 2 * a + b ∧ 2 * a + b ≤ 2 * q * b
